@@ -94,17 +94,31 @@ def run_contract(chk, c, pid, baseline):
     insts = {}      # name -> list of (st, claim, line)
     for name, st, claim, line in eng.obls:
         insts.setdefault(name, []).append((st.pc, claim, line, st))
+    def claim_of(name, props, fn, ctx):
+        # a postcondition that cannot even be stated on this path (the code now binds a value of another kind, a field is missing, ...)
+        # makes the obligation undecided for the properties it serves - it is not a crash of the checker
+        try:
+            return fn(ctx)
+        except (z3.Z3Exception, KeyError, AttributeError, TypeError, IndexError) as e:
+            if pid in props:
+                chk.undecide(f'{pid}:{name}', f'postcondition cannot be evaluated on path [{" > ".join(ctx.st.trace[-8:])}]: {type(e).__name__}: {str(e)[:160]}')
+            return None
+
     for s, oc in paths:
         ctx = Ctx(eng, inp, s, oc)
         if oc.kind == 'return':
             for name, props, fn in c.ensures:
-                insts.setdefault(name, []).append((s.pc, fn(ctx), 0, s))
+                cl = claim_of(name, props, fn, ctx)
+                if cl is not None:
+                    insts.setdefault(name, []).append((s.pc, cl, 0, s))
         elif oc.kind == 'raise':
             if c.allowed_raises is not None:
                 ok = any(pyvc.isa(oc.exc, a) for a in c.allowed_raises)
                 insts.setdefault(f'{fname}.raises_only_documented', []).append((s.pc, z3.BoolVal(ok), 0, s))
             for name, props, fn in c.exc_ensures:
-                insts.setdefault(name, []).append((s.pc, fn(ctx), 0, s))
+                cl = claim_of(name, props, fn, ctx)
+                if cl is not None:
+                    insts.setdefault(name, []).append((s.pc, cl, 0, s))
         else:
             chk.undecide(fname, f'path ends with {oc.kind}')
     # which obligations belong to this property?
